@@ -109,6 +109,29 @@ def check(run):
         it = cborgen.g_uint(rng, n, w)
         line, e = mk("s", it, ["ri"], [str(I64MAX)], 3, 0)
         cases.append((line, e, "read:int-saturate"))
+    # malformed stream (model-vs-implementation only): every head byte under every read operation, with random tails –
+    # reserved additional-information values, wrong major types, stop codes where none may be, truncated arguments,
+    # chunks of the wrong type / of indefinite length inside an indefinite string, an indefinite map ending after a key
+    mal = []
+    for op in ("ru", "rn", "ri", "rb", "rbs", "rts", "ras", "rms", "rbk", "sk"):
+        for hb in range(256):
+            for t in range(2 if quick else 12):
+                tail = bytes(rng.randrange(256) for _ in range(rng.choice([0, 1, 2, 4, 9, 20])))
+                mal.append("dec s %s %s,pk" % ((bytes([hb]) + tail).hex(), op))
+    for body in ("5f4161ff", "5f6161ff", "5f5f4161ffff", "7f6161ff", "7f4161ff", "7f7f6161ffff", "bf01ff", "bf0102ff", "bf0102", "9f01", "5f41",
+                 "5f", "7f", "bf", "9f", "5fff", "7fff", "c0", "c1c2c301", "d8", "f8", "f818", "f820", "fc", "fd", "fe", "1c", "3d", "5e", "7c", "9d", "be", "dc"):
+        for op in ("sk", "rbs", "rts", "ras", "rms"):
+            mal.append("dec s %s %s,pk" % (body, op))
+    mimpl, mmodel = pair(run, "dec", mal)
+    for line, i, m in zip(mal, mimpl, mmodel):
+        run.case(line, True)
+        run.count("malformed:" + line.split()[-1].split(",")[0])
+        if i is None or not i.startswith("I "):
+            sig = "dec:crash:malformed:" + line.split()[-1].split(",")[0]
+            if not any(f[0] == sig for f in run.spec_fail):
+                run.spec_fail.append((sig, line, {"implementation": i}))
+        elif m is not None and m[2:] != i[2:] and len(run.model_fail) < 20:
+            run.model_fail.append((line, {"implementation": i[:400], "model": m[:400]}))
     lines = [c[0] for c in cases]
     impl, model = pair(run, "dec", lines)
     seen = set()
